@@ -37,7 +37,7 @@ PROFILES = {
     'C07': gen.profile(p_fail=0.2),
     'C08': gen.profile(p_fail=0.15, p_rec=0.25),
     'C09': gen.profile(p_sw=0.45, p_oneof=0.1, p_rec=0.12, p_share_decider=0.5, p_unnamed_switch=0.4, p_share_lazy=0.4),
-    'C10': gen.profile(p_oneof=0.45, p_sw=0.1, p_rec=0.1, p_fail=0.25),
+    'C10': gen.profile(p_oneof=0.45, p_sw=0.1, p_rec=0.1, p_fail=0.25, p_cand_falsy=0.3),
     'C11': gen.profile(p_rec=0.5, p_sw=0.1, p_oneof=0.1, p_rec_nested=0.45, p_falsy_ad=0.3),
     'C12': gen.profile(p_retry=0.8, p_fail=0.5, n_max=6),
     'C13': gen.profile(n_max=7),
@@ -165,6 +165,11 @@ def work_generic(prop, tier, seed, widx, nworkers):
                     case['gate_saves'] = rng.choice([0.0, 0.5])
                 if prop == 'C04':
                     case['gate_events'] = rng.choice([0.3, 0.7, 1.0])
+                if prop in ('C01', 'C03', 'C04', 'C11', 'C14') and rng.random() < 0.3:
+                    # an artifact store whose save() really suspends (not write-once: C19 judges the saves)
+                    case['store'] = True
+                    case['write_once'] = False
+                    case['gate_saves'] = rng.choice([0.5, 1.0])
                 res = cases.run_case(case, built)
                 acc.add(case, res, nontrivial_feature=(feat is None or feat in fts))
                 if prop == 'C01':
